@@ -437,6 +437,28 @@ def emit() -> str:
     if sess_dst != ["session.with_ip_address"]:
         raise ValueError(f"resolve_outbound_transmission_details: a session send goes to {sess_dst}")
 
+    # --- Switch: learning is UNCONDITIONAL on every received frame, before the table is read, and a known MAC seen on another
+    # port is re-pointed (learned forwarding state follows topology changes)
+    sw_cls = class_def(parse("simulator/network/hardware/nodes/network/switch.py"), "Switch")
+    srf = [x for x in find_method(sw_cls, "receive_frame").body if not (isinstance(x, ast.Expr) and isinstance(x.value, ast.Constant))]
+    srf_txt = [ast.unparse(x) for x in srf[:4]]
+    if srf_txt != ["src_mac = frame.ethernet.src_mac_addr", "dst_mac = frame.ethernet.dst_mac_addr",
+                   "self._add_mac_table_entry(src_mac, from_network_interface)", "outgoing_port = self.mac_address_table.get(dst_mac)"]:
+        raise ValueError(f"Switch.receive_frame: learning is not the unconditional third statement before the table read: {srf_txt}")
+    if len(srf) != 5 or not isinstance(srf[4], ast.If) or ast.unparse(srf[4].test) != "outgoing_port and dst_mac.lower() != 'ff:ff:ff:ff:ff:ff'":
+        raise ValueError("Switch.receive_frame: unexpected forwarding test")
+    amt = [x for x in find_method(sw_cls, "_add_mac_table_entry").body if not (isinstance(x, ast.Expr) and isinstance(x.value, ast.Constant))]
+    ok_amt = (len(amt) == 2 and ast.unparse(amt[0]) == "mac_table_port = self.mac_address_table.get(mac_address)" and isinstance(amt[1], ast.If)
+              and ast.unparse(amt[1].test) == "not mac_table_port"
+              and ast.unparse(amt[1].body[0]) == "self.mac_address_table[mac_address] = switch_port"
+              and len(amt[1].orelse) == 1 and isinstance(amt[1].orelse[0], ast.If)
+              and ast.unparse(amt[1].orelse[0].test) == "mac_table_port != switch_port" and not amt[1].orelse[0].orelse)
+    if ok_amt:
+        moved = [ast.unparse(x) for x in amt[1].orelse[0].body if not ast.unparse(x).startswith("self.sys_log")]
+        ok_amt = moved == ["self.mac_address_table.pop(mac_address)", "self._add_mac_table_entry(mac_address, switch_port)"]
+    if not ok_amt:
+        raise ValueError("Switch._add_mac_table_entry: not `absent -> insert; present on another port -> pop and insert`")
+
     def lst(xs):
         return "[" + ", ".join(f'("{n}", {k})' for n, k in xs) + "]"
     return f"""namespace Primaite.Gen.Forward
@@ -470,6 +492,9 @@ def hostGatewayGettersReadGatewayOnly : Bool := true
 finds (SessionManager.receive_frame → SoftwareManager.receive_payload_from_session_manager); the session of an inbound frame is
 keyed by its SOURCE address and a send through a session goes to `session.with_ip_address`: replies go to the request's source -/
 def appReceiverByPortProtocolReplyToSource : Bool := true
+/-- Switch.receive_frame: `_add_mac_table_entry(src_mac, from_network_interface)` is its unconditional third statement, before
+`mac_address_table.get(dst_mac)`; `_add_mac_table_entry`: absent -> insert, present on ANOTHER port -> pop and insert -/
+def switchLearnsUnconditionallyAndRepoints : Bool := true
 /-- `IPPacket.ttl` default -/
 def defaultTtl : Int := {ttl}
 /-- `Frame.decrement_ttl`: `self.ip.ttl -= k` -/
